@@ -255,6 +255,10 @@ func (oc *orderCtx) classifyLoop(v *FnView, rs *ast.RangeStmt, depth int) *mapRa
 		mr.Why = append(mr.Why, v.pos(n)+": "+fmt.Sprintf(format, a...))
 	}
 	rangedRoot := v.objOf(rootIdent(rs.X))
+	// outer variables the loop accumulates into, the variables that signal an early exit, and what the
+	// exiting blocks overwrite (see partialAfterExit below)
+	accum := map[types.Object]ast.Node{}
+	var exits []*earlyExit
 	ast.Inspect(rs.Body, func(n ast.Node) bool {
 		switch x := n.(type) {
 		case *ast.AssignStmt:
@@ -267,6 +271,9 @@ func (oc *orderCtx) classifyLoop(v *FnView, rs *ast.RangeStmt, depth int) *mapRa
 					root := v.objOf(rootIdent(ix.X))
 					if root == nil || !declaredOutside(root, rs.Body) || roots[root] {
 						continue
+					}
+					if _, seen := accum[root]; !seen {
+						accum[root] = x
 					}
 					if isMapType(v.Info.TypeOf(ix.X)) {
 						if fromIter(ix.Index) {
@@ -291,6 +298,9 @@ func (oc *orderCtx) classifyLoop(v *FnView, rs *ast.RangeStmt, depth int) *mapRa
 				// a field of an object that itself is derived from the iteration (e.g. round.status = …)
 				if _, isSel := lhs.(*ast.SelectorExpr); isSel && fromIter(lhs.(*ast.SelectorExpr).X) {
 					continue
+				}
+				if _, seen := accum[obj]; !seen {
+					accum[obj] = x
 				}
 				var rhs ast.Expr
 				if i < len(x.Rhs) {
@@ -393,7 +403,18 @@ func (oc *orderCtx) classifyLoop(v *FnView, rs *ast.RangeStmt, depth int) *mapRa
 				// block that breaks is an error exit (it assigns an error variable that outlives the loop) or a
 				// found-flag exit (it assigns a constant)
 				okExit := false
+				ee := &earlyExit{at: x, kills: map[types.Object]bool{}}
+				exits = append(exits, ee)
 				if blk := v.innermostBlock(x); blk != nil {
+					for _, st := range blk.List {
+						if as, isAs := st.(*ast.AssignStmt); isAs && as.Tok == token.ASSIGN {
+							for _, l := range as.Lhs {
+								if o := v.objOf(l); o != nil {
+									ee.kills[o] = true
+								}
+							}
+						}
+					}
 					for _, st := range blk.List {
 						as, isAs := st.(*ast.AssignStmt)
 						if !isAs || len(as.Lhs) != 1 || len(as.Rhs) != 1 {
@@ -405,6 +426,7 @@ func (oc *orderCtx) classifyLoop(v *FnView, rs *ast.RangeStmt, depth int) *mapRa
 						}
 						if isErrorLike(v.Info.TypeOf(as.Lhs[0])) && !isNilIdent(v.Info, as.Rhs[0]) {
 							okExit = true
+							ee.errVar = o
 						}
 						if cv := v.constOf(as.Rhs[0]); cv != nil {
 							okExit = true
@@ -463,6 +485,30 @@ func (oc *orderCtx) classifyLoop(v *FnView, rs *ast.RangeStmt, depth int) *mapRa
 		return true
 	})
 	_ = rangedRoot
+	// An accepted early exit still leaves the loop after an order-dependent subset of the elements: what
+	// the loop accumulated so far may be read afterwards only where the exit is known not to have
+	// happened (the exit's error variable tested nil), unless the exiting block overwrites it.
+	for _, ee := range exits {
+		for obj, first := range accum {
+			if ee.kills[obj] || obj == ee.errVar || isErrorLike(obj.Type()) {
+				continue
+			}
+			for _, use := range v.usesAfter(obj, rs.End()) {
+				guarded := false
+				if ee.errVar != nil {
+					for _, f := range v.FactsAt(use, false) {
+						if c, isC := factCmp(f); isC && c.Op == "==" && v.objOf(c.L) == ee.errVar && isNilIdent(v.Info, c.R) {
+							guarded = true
+						}
+					}
+				}
+				if !guarded {
+					bad(use, "%s (accumulated at %s) is read after the loop although the loop may have been left early at %s after an order-dependent subset of the elements", obj.Name(), v.pos(first), v.pos(ee.at))
+					break
+				}
+			}
+		}
+	}
 	if len(mr.Bad) > 0 {
 		mr.Class = "order-sensitive"
 	} else {
@@ -1472,4 +1518,33 @@ func lessIsElementOrder(w *World, t types.Type) bool {
 		}
 	}
 	return false
+}
+
+// earlyExit: a `break` out of an unordered iteration, the error variable its block sets and the outer
+// variables its block overwrites.
+type earlyExit struct {
+	at     ast.Node
+	errVar types.Object
+	kills  map[types.Object]bool
+}
+
+// usesAfter: identifiers referring to obj that are read at or after pos in the function.
+func (v *FnView) usesAfter(obj types.Object, pos token.Pos) []*ast.Ident {
+	var out []*ast.Ident
+	ast.Inspect(v.Decl, func(n ast.Node) bool {
+		id, ok := n.(*ast.Ident)
+		if !ok || id.Pos() < pos || v.Info.Uses[id] != obj {
+			return true
+		}
+		if as, isAs := v.parent(id).(*ast.AssignStmt); isAs && as.Tok == token.ASSIGN {
+			for _, l := range as.Lhs {
+				if l == ast.Expr(id) {
+					return true // overwritten, not read
+				}
+			}
+		}
+		out = append(out, id)
+		return true
+	})
+	return out
 }
